@@ -62,6 +62,8 @@ func caseFromSx(v sx.V) (Case, error) {
 		return reloadCaseFromSx(v), nil
 	case "swap":
 		return swapCase{N: int(v.N(1).Int())}, nil
+	case "crash":
+		return crashCaseFromSx(v), nil
 	}
 	return nil, fmt.Errorf("unknown family %q", v.N(0).Str())
 }
@@ -87,6 +89,8 @@ func generate(prop, tier string, rng *Rng) []Case {
 		return genLim(tier, rng, prop)
 	case "C05":
 		return genC05(tier, rng)
+	case "C14":
+		return genCrash(tier, rng)
 	case "C19":
 		if os.Getenv("HX_RT") != "" {
 			n := 1500
@@ -134,6 +138,12 @@ func main() {
 		cases = append(cases, generate(prop, tier, rng)...)
 		fmt.Fprintf(os.Stderr, "hx: %s %s seed=%d corpus=%d generated=%d\n", prop, tier, seed, ncorpus, len(cases)-ncorpus)
 		runAll(prop, cases)
+	case "crashop":
+		// child process of a C14 case: one storage operation, traced and killed from outside
+		if err := crashRun(os.Args[2], os.Args[3]); err != nil {
+			fmt.Fprintln(os.Stderr, err)
+			os.Exit(1)
+		}
 	case "replay":
 		prop := os.Args[2]
 		runAll(prop, readCases(os.Args[3]))
